@@ -42,7 +42,8 @@ def gen_plan(prop, seed, index, tier="quick"):
             "index": index, "mode": mode, "timeout_ms": timeout_ms, "quirk": quirk,
             "corr_start": r.choice([0, 0, 5, 2**31 - 1 - r.randint(0, 6)]),
             "bytewise": r.random() < 0.15,
-            "cluster": {"lat": [0.0001, r.choice([0.0003, 0.003])], "chunk": "whole"},
+            "cluster": {"lat": [0.0001, r.choice([0.0003, 0.003])], "chunk": "whole",
+                        "coalesce_eof": r.random() < 0.3},
             "reqs": reqs, "fault": fault}
 
 
@@ -75,6 +76,13 @@ def single_fault_plans(seed, tier):
                                 "cancel_after": 0, "cuts": []}],
                          fault={"at": 0, "kind": k, "arg": pos})
                 plans.append(p)
+                idx += 1
+                # same cut, second request's frame instead (EOF on / after a frame boundary
+                # with an earlier reply already delivered), coalescing loop flavour
+                p2 = dict(p, seed=scenario.subseed(seed, "C12e", idx), index=f"e{idx}",
+                          cluster=dict(base["cluster"], coalesce_eof=True),
+                          fault={"at": 1, "kind": k, "arg": pos})
+                plans.append(p2)
                 idx += 1
     return plans
 
